@@ -82,35 +82,31 @@ func (c *NoiseGrpcConn) Read(b []byte) (n int, err error) {
 	c.nextMsgMtx.Lock()
 	defer c.nextMsgMtx.Unlock()
 
-	// The last read was incomplete, return the few bytes that didn't fit.
-	if len(c.nextMsg) > 0 {
-		msgLen := len(c.nextMsg)
-		copy(b, c.nextMsg)
+	// Only read the next message once the previous one has been handed
+	// over completely.
+	if len(c.nextMsg) == 0 {
+		requestBytes, err := c.noise.ReadMessage(c.ProxyConn)
+		if err != nil {
+			return 0, fmt.Errorf("error decrypting payload: %v",
+				err)
+		}
 
-		c.nextMsg = nil
-		return msgLen, nil
+		c.nextMsg = requestBytes
 	}
 
-	requestBytes, err := c.noise.ReadMessage(c.ProxyConn)
-	if err != nil {
-		return 0, fmt.Errorf("error decrypting payload: %v", err)
+	// We cannot give the gRPC layer above us more than the default read
+	// buffer size of 32k bytes at a time, and never more than fits into
+	// the buffer we were given. Whatever doesn't fit is kept for the next
+	// call.
+	limit := len(b)
+	if limit > defaultGrpcWriteBufSize {
+		limit = defaultGrpcWriteBufSize
 	}
 
-	// Do we need to read this message in two parts? We cannot give the
-	// gRPC layer above us more than the default read buffer size of 32k
-	// bytes at a time.
-	if len(requestBytes) > defaultGrpcWriteBufSize {
-		nextMsgLen := len(requestBytes) - defaultGrpcWriteBufSize
-		c.nextMsg = make([]byte, nextMsgLen)
+	n = copy(b[:limit], c.nextMsg)
+	c.nextMsg = c.nextMsg[n:]
 
-		copy(c.nextMsg[0:nextMsgLen], requestBytes[defaultGrpcWriteBufSize:])
-
-		copy(b, requestBytes[0:defaultGrpcWriteBufSize])
-		return defaultGrpcWriteBufSize, nil
-	}
-
-	copy(b, requestBytes)
-	return len(requestBytes), nil
+	return n, nil
 }
 
 // Write encrypts the given application level payload and sends it as a data
